@@ -4,7 +4,7 @@ CONSTANTS
   MaxSteps = 5
   MaxW = 16
   FreshOnly = FALSE
-  Ops = {"bin", "un", "slice", "compose", "cond", "ext", "simplify", "pickle"}
+  Ops = {"bin", "un", "slice", "compose", "cond", "ext", "simplify", "pickle", "mapw", "subst"}
   Rand = TRUE
 INIT Init
 NEXT Next
